@@ -26,7 +26,8 @@ MODULES = {
             "ctl": {"module": "MC_Midi", "cfg": "Graph_Midi_ctl.cfg"},
         },
     },
-    "adsr": {"trace_spec": "Trace_Adsr", "trace_cfg": "Trace_Adsr.cfg", "graphs": {}},
+    "adsr": {"trace_spec": "Trace_Adsr", "trace_cfg": "Trace_Adsr.cfg",
+             "graphs": {"fs128": {"module": "MC_Adsr", "cfg": "Graph_Adsr.cfg", "target": "adsr"}}},
     "quant": {"trace_spec": "Trace_Quantizer", "trace_cfg": "Trace_Quantizer.cfg", "graphs": {}},
     "ribbon": {
         "trace_spec": "Trace_Ribbon", "trace_cfg": "Trace_Ribbon.cfg",
@@ -96,9 +97,9 @@ _ADSR_MC = [("adsr", "MC_Adsr", "MC_Adsr.cfg", QT), ("adsr-live", "MC_Adsr", "MC
             ("adsr-big", "MC_Adsr", "MC_Adsr_big.cfg", T), ("adsr-live-big", "MC_Adsr", "MC_Adsr_live_big.cfg", T)]
 _ADSR_TR = [("adsr", "random", QT), ("adsr", "durations", QT), ("adsr", "cells", QT)]
 PROPS.update({
-    "C01": {"module": "adsr", "mc": _ADSR_MC, "traces": _ADSR_TR,
+    "C01": {"module": "adsr", "mc": _ADSR_MC, "traces": _ADSR_TR, "graphs": [("adsr", "fs128", QT)],
             "rule": "distinct (phase, table cell) pairs (of 3 x 1024 + 2) in which a logged tick landed"},
-    "C02": {"module": "adsr", "mc": _ADSR_MC, "traces": _ADSR_TR},
+    "C02": {"module": "adsr", "mc": _ADSR_MC, "traces": _ADSR_TR, "graphs": [("adsr", "fs128", QT)]},
     "C03": {"module": "adsr", "mc": _ADSR_MC, "traces": _ADSR_TR},
 })
 
